@@ -431,7 +431,8 @@ err_t bign96KeypairVal(const bign_params* params, const octet privkey[24],
 	if (ecMulA(Q, ec->base, ec, d, n, stack))
 	{
 		// Q == pubkey?
-		wwTo(Q, 48, Q);
+		qrTo((octet*)Q, ecX(Q), ec->f, stack);
+		qrTo((octet*)Q + 24, ecY(Q, n), ec->f, stack);
 		if (!memEq(Q, pubkey, 48))
 			code = ERR_BAD_PUBKEY;
 	}
